@@ -135,6 +135,16 @@ def gen_case(rng, tier, g):
     if fmt in ('json', 'jsonarrays') and rng.random() < 0.2:
         args['prefix'] = 'cb('
         args['suffix'] = ');'
+    if fmt == 'jsonarrays' and rng.random() < 0.4:
+        args['output_header'] = rng.random() < 0.7
+    if fmt in ('json', 'jsonlines', 'jsonarrays') and rng.random() < 0.3:
+        # JSONEncoder arguments travel through **kwargs
+        # (not sort_keys: field order is part of the table; no indent in
+        # the lines form, where a record is one line)
+        args.update(rng.choice(
+            ([] if fmt == 'jsonlines' else [{'indent': 1}]) +
+            [{'check_circular': False}, {'ensure_ascii': False},
+             {'separators': [',', ':']}]))
     can_append = fmt in ('csv', 'tsv', 'pickle', 'text')
     hist = []
     nops = rng.choice([1, 1, 2, 3, 4]) if can_append else rng.choice([1, 1, 2])
@@ -390,7 +400,9 @@ def run_case(case):
                         tuple(_jsonify(r[i]) if i < len(r) else None
                               for i in range(len(hdr))) for r in table[1:]]
                 elif fmt == 'jsonarrays':
-                    want = [_jsonify(list(r)) for r in table[1:]]
+                    want = [_jsonify(list(r)) for r in
+                            (table if args.get('output_header') else
+                             table[1:])]
                 else:
                     want = None
                 # ---- the write --------------------------------------------
